@@ -8,6 +8,6 @@ PROPS["C03"] = dict(
                "in front of an unrecognised payload, minimum-frame zero padding). Packets that do not serialize are C02's business and are skipped (counted).",
     phases=[dict(name="roundtrip", harness="c03.cpp", flavor="asan", mode="main", cases=dict(quick=26000, thorough=1500000))],
     rule="case = (entry point, seed | truncation | mutation | generated packet); distinct = distinct (entry point, layer chain, first 96 serialized bytes) of completed round trips",
-    floors=dict(any={"distinct": 20000, "roundtrips": 100000, "idempotent_serializations": 30000, "tag_rederived_for_recognised_payload": 1000, "layer:*": 1}),
+    floors=dict(any={"distinct": 20000, "roundtrips": 100000, "idempotent_serializations": 30000, "views_equal": 100000, "layer:*": 1}),
     assumptions=["x86-64 little-endian", "IP as root with source 0.0.0.0 skipped (routing table)", "PPI/PKTAP roots skipped (documented as not serializable)"],
 )
